@@ -12,7 +12,7 @@ from hypothesis import strategies as st
 
 from easynetwork.clients.async_tcp import AsyncTCPNetworkClient
 from easynetwork.clients.tcp import TCPNetworkClient
-from easynetwork.exceptions import StreamProtocolParseError
+from easynetwork.exceptions import ClientClosedError, StreamProtocolParseError
 from easynetwork.lowlevel.api_async.backend._asyncio.backend import AsyncIOBackend
 from easynetwork.lowlevel.api_async.endpoints.stream import AsyncStreamEndpoint
 from easynetwork.lowlevel.api_sync.endpoints.stream import StreamEndpoint
@@ -124,7 +124,9 @@ class _Judge:
     def eof(self, where: str, eof_happened: bool) -> None:
         if not eof_happened and not self.eof_reported:
             raise Violation("eof-before-close", f"{where}: end-of-stream reported although the peer has not closed yet", where=where)
-        if self.delivered < len(self.expected):
+        if self.delivered < len(self.expected) and self.case.get("close_kind") != "reset":
+            # (a connection *reset* may discard what the application had not read yet, as it does in the kernel and in
+            # asyncio's own streams: only order and exactly-once are judged there)
             raise Violation(
                 "eof-before-data",
                 f"{where}: end-of-stream reported after {self.delivered} packets but {len(self.expected)} complete packets were received before the peer closed",
@@ -304,14 +306,26 @@ async def _async_session(case: dict) -> dict:
         aio_protocol = StreamReaderBufferedProtocol(loop=loop)
         aio_transport = FakeAsyncioTransport(loop, aio_protocol, kernel_capacity=None, max_recv=case.get("max_recv"))
         adapter = AsyncioTransportStreamSocketAdapter(backend, aio_transport, aio_protocol)
-        obj: Any = AsyncStreamEndpoint(adapter, proto, max_recv_size=case["max_recv_size"])
+        obj: Any
+        if case["api"] == "client":
+            backend = VerifBackend()
+            backend.connect_transports.append(adapter)  # type: ignore[arg-type]
+            obj = AsyncTCPNetworkClient(("localhost", 9000), proto, backend, max_recv_size=case["max_recv_size"])
+            await obj.wait_connected()
+        else:
+            obj = AsyncStreamEndpoint(adapter, proto, max_recv_size=case["max_recv_size"])
 
         class _Feeder:
             def feed(self, data: bytes) -> None:
                 aio_transport.feed(data)
 
             def feed_eof(self) -> None:
-                aio_transport.feed_eof()
+                if case.get("close_kind") == "reset":
+                    # the connection is reset instead of closed: what was completely received before must still be
+                    # delivered first, then a connection error (never "client closed": nobody closed the client)
+                    aio_transport.lose_connection(ConnectionResetError(104, "Connection reset by peer"))
+                else:
+                    aio_transport.feed_eof()
 
         mem: Any = _Feeder()
     elif case["api"] == "client":
@@ -350,7 +364,14 @@ async def _async_session(case: dict) -> dict:
         except TimeoutError:
             judge.timeout(where, T is not None, arrived_now())
             return "timeout"
+        except ClientClosedError as exc:
+            raise Violation("client-closed-error", f"{where}: ClientClosedError although nobody closed the client: {exc}", where=where) from exc
         except ConnectionAbortedError:
+            judge.eof(where, loop.time() >= eof_time)
+            return "eof"
+        except ConnectionResetError:
+            if case.get("close_kind") != "reset":
+                raise
             judge.eof(where, loop.time() >= eof_time)
             return "eof"
         except StreamProtocolParseError as exc:
@@ -358,6 +379,8 @@ async def _async_session(case: dict) -> dict:
         judge.packet(value, where)
         return "packet"
 
+    if case.get("start_delay"):
+        await asyncio.sleep(case["start_delay"])
     for idx, (kind, T) in enumerate(tuple(c) for c in case["calls"]):
         where = f"call#{idx}:{kind}(timeout={T})"
         if kind == "iter" and case["api"] == "client":
@@ -376,7 +399,7 @@ async def _async_session(case: dict) -> dict:
             raise Violation("no-eof", "drain does not reach end-of-stream", where="drain")
         if await one_recv(None, f"drain#{guard}") == "eof":
             break
-    if judge.delivered != len(judge.expected):
+    if judge.delivered != len(judge.expected) and case.get("close_kind") != "reset":
         raise Violation("lost-packet", f"only {judge.delivered} of {len(judge.expected)} packets delivered before end-of-stream", where="drain")
     for k in range(case["post_eof_calls"]):
         t0 = loop.time()
@@ -397,13 +420,43 @@ def run_async_case(case: dict) -> Outcome:
     judge = r["judge"]
     entry = zoo.build(case["spec"])
     classes = [case["api"], "path-B" if (case["buffered"] and entry.buffered) else "path-A"]
+    if case.get("burst"):
+        classes.append("burst-over-receive-buffer")
     return Outcome(nontrivial=_nontrivial(case, judge), classes=tuple(classes + _classes(case, judge)))
 
 
 @st.composite
 def st_adapter_case(draw: st.DrawFn, tier: str) -> dict:
+    if draw(st.integers(0, 7)) == 0:
+        # a burst larger than the protocol's 256 KiB receive buffer while the reader is idle or slower (the transport's
+        # reading is paused at the high-water mark and resumed once the reader has drained), then a few late packets the
+        # reader has to *wait* for after that pause/resume cycle
+        spec = {"kind": "line", "newline": "LF", "encoding": "ascii", "keep_end": False}
+        n = draw(st.sampled_from([130, 300]))
+        size = draw(st.sampled_from([1100, 2500]))
+        packets = [f"p{i}:" + "x" * size for i in range(n)] + [f"late{i}" for i in range(draw(st.integers(1, 3)))]
+        entry = zoo.build(spec)
+        frames = [b"".join(entry.frame(p)) for p in packets]
+        return {
+            "spec": spec,
+            "packets": packets,
+            "partial": b"",
+            "groups": [b"".join(frames[:n]), b"".join(frames[n:])],
+            "gaps": [0.0, draw(st.sampled_from([1.5, 3.0])), 0.5],
+            "close_after": 2,
+            "calls": [],
+            "post_eof_calls": 2,
+            "buffered": draw(st.booleans()),
+            "max_recv_size": draw(st.sampled_from([1024, 65536])),
+            "api": "endpoint",
+            "over": "asyncio-adapter",
+            "max_recv": None,
+            "start_delay": draw(st.sampled_from([0.0, 1.0])),
+            "burst": True,
+        }
     case = draw(st_case(tier, asynchronous=True))
-    case["api"] = "endpoint"
+    case["api"] = draw(st.sampled_from(["endpoint", "client"]))
+    case["close_kind"] = draw(st.sampled_from(["eof", "eof", "reset"]))
     case["over"] = "asyncio-adapter"
     case["max_recv"] = draw(st.sampled_from([None, None, 1, 5]))
     # bursts larger than max_recv_size waiting in the protocol's buffer exercise the partial-read path of receive_data()
